@@ -128,6 +128,7 @@ func c09WriteTo(c *Ctx) {
 	}
 	c.Fn(FuncName(wt))
 	n := 0
+	repeatSpaces := false
 	for _, b := range wt.Blocks {
 		for _, ins := range b.Instrs {
 			call, ok := ins.(*ssa.Call)
@@ -141,6 +142,10 @@ func c09WriteTo(c *Ctx) {
 			case *ssa.Slice:
 				if isFreshByteBuf(a) {
 					what = "spaces"
+				}
+				if repeatedSpaces(a) {
+					what = "spaces"
+					repeatSpaces = true
 				}
 			case *ssa.UnOp:
 				if lf := loadedField(a); lf != nil && lf.Name() == "Bytes" {
@@ -169,7 +174,7 @@ func c09WriteTo(c *Ctx) {
 			}
 		}
 	}
-	c.Check(okSpaces, "writeto", FuncName(wt)+":spaces-buffer", wt.Pos(), "padding buffer is all spaces", "the padding buffer is not initialised to spaces")
+	c.Check(okSpaces || repeatSpaces, "writeto", FuncName(wt)+":spaces-buffer", wt.Pos(), "padding buffer is all spaces", "the padding buffer is not initialised to spaces")
 	// Format / File.WriteTo composition
 	for _, spec := range []struct{ fn, must string }{{"Format", "format"}, {"File.WriteTo", "format"}, {"File.Bytes", "WriteTo"}} {
 		fn := c.P.LookupFunc("hclwrite", spec.fn)
@@ -428,6 +433,45 @@ func c09SpaceTable(c *Ctx) {
 }
 
 // isFreshByteBuf: a byte slice made in this function (make([]byte, n) in either SSA form), or a re-slice of one.
+// repeatedSpaces: v is (a slice of) bytes.Repeat(<only ' ' bytes>, n).
+func repeatedSpaces(v ssa.Value) bool {
+	for i := 0; i < 6; i++ {
+		if sl, ok := v.(*ssa.Slice); ok {
+			v = sl.X
+			continue
+		}
+		break
+	}
+	call, ok := v.(*ssa.Call)
+	if !ok {
+		return false
+	}
+	cal := call.Call.StaticCallee()
+	if cal == nil || cal.Pkg == nil || cal.Pkg.Pkg.Path() != "bytes" || cal.Name() != "Repeat" {
+		return false
+	}
+	switch a := call.Call.Args[0].(type) {
+	case *ssa.Slice: // []byte{' ', ...}
+		al, ok := a.X.(*ssa.Alloc)
+		if !ok {
+			return false
+		}
+		sts := storesInto(al)
+		for _, st := range sts {
+			if n, ok := constInt(st.Val); !ok || n != ' ' {
+				return false
+			}
+		}
+		return len(sts) > 0
+	case *ssa.Convert: // []byte(" ")
+		if cn, ok := a.X.(*ssa.Const); ok && cn.Value != nil && cn.Value.Kind() == constant.String {
+			str := constant.StringVal(cn.Value)
+			return str != "" && strings.Trim(str, " ") == ""
+		}
+	}
+	return false
+}
+
 func isFreshByteBuf(v ssa.Value) bool {
 	for i := 0; i < 6; i++ {
 		switch x := v.(type) {
